@@ -276,9 +276,55 @@ fn generator_repeating_an_address() {
     }
 }
 
+/// found missing by seed C11f: explicit ids supplied in DESCENDING order (and below automatic ones),
+/// then automatic ids: each is the largest id in use plus one, no store call returns an id twice, and
+/// every id still runs the code that was stored under it
+fn explicit_ids_in_any_order() {
+    let mut app = App::default();
+    let (creator, user) = (addr("creator"), addr("user"));
+    // which code an id runs is told apart by the checksum supplied with it
+    let cs = |n: u8| [n; 32];
+    let orders: [&[u64]; 4] = [&[9, 5, 3], &[5, 9, 3], &[3, 9, 5], &[u64::MAX - 5, 4, 2]];
+    let order = orders[choose(orders.len())];
+    let mut stored: Vec<(u64, u8)> = vec![];
+    let first = app.store_code(sc::contract_with_checksum(cs(1)));
+    stored.push((first, 1));
+    for (i, id) in order.iter().enumerate() {
+        let tag = 10 + i as u8;
+        match app.store_code_with_id(creator.clone(), *id, sc::contract_with_checksum(cs(tag))) {
+            Ok(got) => {
+                check_native("explicit_id_is_honoured", got == *id, || format!("{} vs {}", got, id));
+                stored.push((got, tag));
+            }
+            Err(e) => {
+                check_native("explicit_id_is_honoured", false, || format!("{}: {:#}", id, e));
+                return;
+            }
+        }
+    }
+    for j in 0..3u8 {
+        let max = stored.iter().map(|(i, _)| *i).max().unwrap();
+        let tag = 20 + j;
+        let got = if j == 1 { app.duplicate_code(first).unwrap_or(0) } else { app.store_code(sc::contract_with_checksum(cs(tag))) };
+        check_native("automatic_id_is_largest_plus_one", got == max + 1, || format!("{} after ids {:?}", got, stored));
+        check_native("no_id_is_handed_out_twice", !stored.iter().any(|(i, _)| *i == got), || format!("{} again, ids {:?}", got, stored));
+        stored.push((got, if j == 1 { 1 } else { tag }));
+    }
+    for (id, tag) in &stored {
+        let ci = app.wrap().query_wasm_code_info(*id);
+        check_native("every_id_still_holds_the_code_stored_under_it", ci.as_ref().map(|c| c.checksum.as_slice().to_vec()).ok() == Some(cs(*tag).to_vec()), || {
+            format!("id {} expected checksum byte {}: {:?}", id, tag, ci.map(|c| c.checksum.as_slice()[0]))
+        });
+        let r = app.instantiate_contract(*id, user.clone(), &Script::new(), &[], format!("l{}", id), None);
+        check_native("every_stored_code_can_be_instantiated", r.is_ok(), || format!("id {}: {:?}", id, r.as_ref().err().map(|e| e.to_string())));
+    }
+    witness("ids_end");
+}
+
 pub fn scenarios(_tier: &str) -> Vec<Scenario> {
     vec![
         Scenario::new("ids_addresses_histories", &["instantiated", "migrated", "rolled_back", "end"], history),
         Scenario::new("address_generator_proposing_an_occupied_address", &["duplicate_rejected"], generator_repeating_an_address),
+        Scenario::new("explicit_ids_in_descending_order_then_automatic_ones", &["ids_end"], explicit_ids_in_any_order),
     ]
 }
